@@ -366,6 +366,40 @@ pub struct C05 {
 }
 
 impl C05 {
+    /// garbage reads of t0 on the arms of a branch: each one reported on its operand, no
+    /// correct read reported
+    fn run_two_arm(&self, case: u64, i: u64, acc: &mut Acc) {
+        let (src, garbage, fine, code) = two_arm(i);
+        acc.count("two_arm_programs", 1);
+        if !garbage.is_empty() {
+            acc.count("nontrivial", 1);
+        }
+        let Ok(run) = imp::analyze_text(&src) else {
+            acc.count("analysis_panicked", 1);
+            return;
+        };
+        acc.count("traces", 1);
+        let loc = crate::loc::Locator::new(&src);
+        let ctx = ["main", "function", "after-call"][(i % 3) as usize];
+        let witness = |what: &str| json!({"case": case, "two_arm": i, "source": src, "what": what, "garbage_read_lines": garbage.iter().map(|l| l + 1).collect::<Vec<_>>(),
+            "diagnostics": run.diags.iter().map(|d| (d.code.clone(), d.start_line + 1, loc.slice(d.start_raw, d.end_raw))).collect::<Vec<_>>()});
+        let on_t0 = |line: usize| run.diags.iter().any(|d| d.code == code && d.start_line == line && loc.slice(d.start_raw, d.end_raw) == "t0");
+        for l in &garbage {
+            if !on_t0(*l) {
+                let other = if fine.is_empty() { "both-arms-read-garbage" } else { "other-arm-assigns-first" };
+                acc.violation(format!("C05|two-arm|garbage-read-not-reported|{ctx}|{other}"), case, witness("a read of the never-assigned (or clobbered) t0 draws no diagnostic on its operand"));
+                return;
+            }
+        }
+        for l in &fine {
+            if run.diags.iter().any(|d| (d.code == code || d.code == "invalid-use-before-assignment") && d.start_line == *l && loc.slice(d.start_raw, d.end_raw) == "t0") {
+                acc.violation(format!("C05|two-arm|correct-read-reported|{ctx}"), case, witness("a read of t0 behind its assignment is reported"));
+                return;
+            }
+        }
+        acc.outcome(&format!("two-arm:{ctx}:{}-garbage-reads", garbage.len()), case);
+    }
+
     pub fn new() -> C05 {
         C05 {
             space: SSpace::new(Tier::Quick),
@@ -540,18 +574,88 @@ impl C05 {
     }
 }
 
+
+// ---------------------------------------------------------------------------------------
+// Two-arm family: a garbage read of t0 on one arm of a branch while the other arm may assign
+// t0 first (a correct read) or read the garbage too, at different distances from the
+// branch. Every garbage read must be reported on its operand, no correct read may be.
+
+pub const N_TWO_ARM: u64 = 3 * 8 * 8;
+
+/// (source, expected: for each arm Some(line of the garbage read) / None, lines of correct reads, code)
+pub fn two_arm(i: u64) -> (String, Vec<usize>, Vec<usize>, &'static str) {
+    let ctx = (i % 3) as usize; // 0 = main, 1 = function, 2 = after a call
+    let a = ((i / 3) % 8) as usize;
+    let b = ((i / 24) % 8) as usize;
+    let fill = ["    addi a2, a2, 1", "    addi a3, a3, 1", "    addi a4, a4, 1"];
+    let mut lines: Vec<String> = Vec::new();
+    let mut garbage = Vec::new();
+    let mut fine = Vec::new();
+    let code = if ctx == 2 { "invalid-use-after-call" } else { "invalid-use-before-assignment" };
+    match ctx {
+        0 => lines.push("main:".into()),
+        1 => {
+            lines.extend(["main:", "    li a0, 1", "    li a2, 0", "    li a3, 0", "    li a4, 0", "    jal f", "    li a7, 1", "    ecall", "    li a7, 10", "    ecall", "f:"].map(String::from));
+        }
+        _ => {
+            lines.extend(["main:", "    li t0, 9", "    jal g"].map(String::from));
+        }
+    }
+    if ctx != 1 {
+        // a2..a4 are defined, a0 comes from the environment / the callee
+        lines.extend(["    li a2, 0", "    li a3, 0", "    li a4, 0"].map(String::from));
+    }
+    lines.push("    beq a0, zero, L1".into());
+    let mut arm = |k: usize, lines: &mut Vec<String>| {
+        let assigned = k >= 4;
+        for f in fill.iter().take(k % 4) {
+            lines.push((*f).into());
+        }
+        if assigned {
+            lines.push("    li t0, 5".into());
+        }
+        lines.push("    add a0, a2, t0".into());
+        if assigned {
+            fine.push(lines.len() - 1);
+        } else {
+            garbage.push(lines.len() - 1);
+        }
+    };
+    arm(a, &mut lines);
+    lines.push("    j L2".into());
+    lines.push("L1:".into());
+    arm(b, &mut lines);
+    lines.push("L2:".into());
+    if ctx == 1 {
+        lines.push("    add a0, a0, a3".into());
+        lines.push("    add a0, a0, a4".into());
+        lines.push("    ret".into());
+    } else {
+        lines.extend(["    add a0, a0, a3", "    add a0, a0, a4", "    li a7, 1", "    ecall", "    li a7, 10", "    ecall"].map(String::from));
+        if ctx == 2 {
+            lines.extend(["g:", "    li a0, 1", "    ret"].map(String::from));
+        }
+    }
+    (lines.join("\n") + "\n", garbage, fine, code)
+}
+
 impl Property for C05 {
     fn id(&self) -> &'static str {
         "C05"
     }
     fn cases(&self, tier: Tier) -> u64 {
-        self.n_bases(tier) * CLASSES.len() as u64 * MAX_SITES
+        self.n_bases(tier) * CLASSES.len() as u64 * MAX_SITES + N_TWO_ARM
     }
     fn chunk(&self, _tier: Tier) -> u64 {
         1400
     }
     fn run_case(&self, tier: Tier, case: u64, acc: &mut Acc) {
         acc.count("cases", 1);
+        let injected = self.n_bases(tier) * CLASSES.len() as u64 * MAX_SITES;
+        if case >= injected {
+            self.run_two_arm(case, case - injected, acc);
+            return;
+        }
         let (b, class, site) = self.decode(tier, case);
         let Some(base) = (if b < self.space.count() { self.space.get(b) } else { None }) else {
             acc.count("not_a_member", 1);
@@ -568,6 +672,10 @@ impl Property for C05 {
         self.run_injected(case, &base, class, site, acc);
     }
     fn show(&self, tier: Tier, case: u64) -> String {
+        let injected = self.n_bases(tier) * CLASSES.len() as u64 * MAX_SITES;
+        if case >= injected {
+            return two_arm(case - injected).0;
+        }
         let (b, class, site) = self.decode(tier, case);
         match self.space.get(b).and_then(|base| inject(&base, class, site)) {
             Some(i) => format!("{} site {}\n{}", CLASSES[class], site, i.program.text()),
@@ -575,6 +683,10 @@ impl Property for C05 {
         }
     }
     fn replay(&self, w: &Value, acc: &mut Acc) {
+        if let Some(i) = w["two_arm"].as_u64() {
+            self.run_two_arm(w["case"].as_u64().unwrap_or(0), i, acc);
+            return;
+        }
         if let Some(case) = w["case"].as_u64() {
             for tier in [Tier::Quick, Tier::Thorough] {
                 if case < self.cases(tier) {
